@@ -251,7 +251,7 @@ def tok_id(rng, name, st):
     ids = st.setdefault("ids", {})
     if name not in ids:
         while True:
-            i = rng.randrange(0x0400, 0xfff0)
+            i = rng.choice([rng.randrange(0x0400, 0xfff0), rng.choice([x for x in range(0x0018, 0x0317) if x not in (0x0167, 0x0243, 0x029c)])])
             if i not in ids.values():
                 break
         ids[name] = i
@@ -983,7 +983,7 @@ def to_tstruct(sh, ids, rng, p=0.5):
                     t = ids[n]
                 else:
                     while True:
-                        t = rng.randrange(0x0400, 0xfff0)
+                        t = rng.choice([rng.randrange(0x0400, 0xfff0), rng.choice([x for x in range(0x0018, 0x0317) if x not in (0x0167, 0x0243, 0x029c)])])
                         if t not in used:
                             break
                     used.add(t)
